@@ -1616,12 +1616,26 @@ func (sc *serverConn) processData(f *DataFrame) error {
 
 	// Sender sending more than they'd declared?
 	if st.declBodyBytes != -1 && st.bodyBytes+int64(len(data)) > st.declBodyBytes {
+		// The frame is discarded, but its octets still count against the
+		// connection-level window: enforce it here, and return the octets
+		// below, otherwise the client's view of the connection window
+		// shrinks forever.
+		if sc.inflow.available() < int32(f.Length) {
+			errMsg := "connection-level flow control window error"
+			return StreamError{id, ErrCodeFlowControl, errMsg}
+		}
+
 		err := fmt.Errorf("sender tried to send more than declared Content-Length of %d bytes", st.declBodyBytes)
 		st.body.CloseWithError(err)
 		// RFC 7540, sec 8.1.2.6: A request or response is also malformed if the
 		// value of a content-length header field does not equal the sum of the
 		// DATA frame payload lengths that form the body.
-		return StreamError{id, ErrCodeProtocol, err.Error()}
+		sc.resetStream(StreamError{id, ErrCodeProtocol, err.Error()})
+
+		// RST_STREAM is queued first; then hand back the connection-level octets.
+		sc.inflow.take(int32(f.Length))
+		sc.sendWindowUpdate(nil, int(f.Length))
+		return nil
 	}
 	if f.Length > 0 {
 		// Check whether the client has flow control quota.
@@ -1634,6 +1648,10 @@ func (sc *serverConn) processData(f *DataFrame) error {
 		if len(data) > 0 {
 			wrote, err := st.body.Write(data)
 			if err != nil {
+				// The body pipe is closed (e.g. by the handler): the octets are
+				// discarded and the stream is reset, so return the connection-level
+				// window that was just taken.
+				sc.sendWindowUpdate(nil, int(f.Length))
 				errMsg := fmt.Sprintf("stream body write error: %s", err)
 				return StreamError{id, ErrCodeStreamClosed, errMsg}
 			}
